@@ -256,3 +256,122 @@ def run(ctx):
                         if not any(is_dstate(k) and rel == '==' and c == end[0] for (k, rel, c) in facts):
                             ok = False
         rep.check(r3, ok, ty + ':complete-request', 'every path state that reaches the reply has established d.state == End: %s' % ok, f.loc(sp[0]) if sp else '')
+
+    # R3: a field that is read repeatedly in one state (the SMB2 dialect list) must start every entry from zero and hand
+    # every completed entry to the collection - otherwise the "offered" set contains values the client never sent
+    n_loops = 0
+    for fid in sorted(F.fns):
+        if not (fid.endswith('MPacket>::parse') and 'proto::smb::' in fid):
+            continue
+        try:
+            seq_, info_ = dissector_layout(F, fid)
+        except AnalysisError:
+            continue
+        f = F.fn(fid)
+        for arm, (fld, width, endian, nxt) in sorted(info_.items()):
+            if nxt != arm or fld is None:
+                continue
+            n_loops += 1
+            rd = [(b, t) for b, t in f.calls(r'PacketDissector::<T>::read_u\w+$') if fld in short(f.argv(b, 2))]
+            ok, det = len(rd) == 1, '%d read sites for %s' % (len(rd), fld)
+            if ok:
+                rb = rd[0][0]
+                rv = f.call_val(rb)
+                def is_di(a):
+                    al = alts(a)
+                    return bool(al) and all((isinstance(x, tuple) and x[0] == 'modby') or (isinstance(x, tuple) and x[0] == 'entry' and Fn.path_of(x[1])[-2:] == [('f', 'd'), ('f', 'i')]) for x in al) and \
+                        any(isinstance(x, tuple) and x[0] == 'entry' for x in al)
+                done = [(b, s_) for (b, s_) in eq_edges(f, lambda a, c: is_di(a) and const_val(c) == 0) if rb in f.dominators().get(b, ())]
+                resets = []
+                for bi, blk in enumerate(f.blocks):
+                    if blk['cleanup']:
+                        continue
+                    for i_, st in enumerate(blk['stmts']):
+                        fl = [p['f'] for p in st['lhs']['p'] if isinstance(p, dict) and 'f' in p]
+                        if fl == [fld] and st['lhs']['l'] == 1 and const_val(f.rvalue(st['rv'], (bi, i_))) == 0:
+                            resets.append(bi)
+                uses = [b for b, t in f.calls(r'HashSet::<[^>]*>::insert$|Vec::<[^>]*>::push$') if any(x == rv for x in walk(f.argv(b, 1))) or fld in short(f.argv(b, 1))]
+                rets = f.return_blocks()
+                ok = bool(done) and bool(resets) and bool(uses)
+                for (_, s_) in done:
+                    if any(x in f.reachable(s_, removed_blocks=resets) for x in rets):
+                        ok = False
+                        det = 'an entry can complete without %s being reset to 0' % fld
+                    already = bool_edges(f, lambda d_: is_call(peel(d_, unwraps=False), r'HashSet::<[^>]*>::contains$|\[T\]>::contains$') and fld in short(d_), True)
+                    if any(x in f.reachable(s_, removed_blocks=uses, removed_edges=already) for x in rets):
+                        ok = False
+                        det = (det + '; ' if 'without' in det else '') + 'an entry can complete without being added to the collection'
+                if ok:
+                    det = 'every completed entry (d.i back to 0) is added to the collection and %s is reset to 0, on every path' % fld
+            rep.check(r3, ok, '%s:%s:repeated-field' % (fid.split(' as ')[0].split('::')[-1], arm), det, '%s:%d' % (f.file, f.line))
+    rep.check(r3, n_loops >= 1, 'repeated-fields-found', '%d repeated-field states found in the SMB dissectors (the SMB2 dialect list)' % n_loops)
+
+    # R4: the accumulators that build every multi-byte field (little-endian: SMB; big-endian: NetBIOS length)
+    r4 = rep.rule('C17-R4', 'field accumulation: after k bytes the little-endian accumulator holds byte j at bits 8j..8j+7 for every j < k (all field widths 2/4/8, bit-exact for every byte value); the big-endian one shifts the previous value up by 8 and puts the byte below it; the byte counter advances by one per byte and the state changes exactly when it reaches the field size', floor=12)
+    from vlib.bits import BitEval, describe
+    DP = 'proto::dissector::PacketDissector::<T>::'
+    le, be_ = F.fn(DP + '_read_ulesize'), F.fn(DP + '_read_usize')
+    rep.saw(le, be_)
+    I_FIELD = ('entry', ('field', ('deref', ('param', 1)), 'i'))
+
+    def ret_expr(f):
+        rets = f.return_blocks()
+        return f.ret_value(rets[0]) if len(rets) == 1 else None
+    rle = ret_expr(le)
+    for k in range(8):
+        ok, got = False, '?'
+        if rle is not None:
+            e = rewrite(rle, lambda x: ('const', k, None, 'usize') if x == I_FIELD else None)
+
+            def src(x, k=k):
+                if x == ('param', 3):
+                    return [('in', 'value', j) for j in range(8 * k)] + [0] * (64 - 8 * k)
+                if x == ('entry', ('deref', ('param', 2))):
+                    return ('byte', 8)
+                return None
+            bits = BitEval(src).bits(e)
+            want = [('in', 'value', j) for j in range(8 * k)] + [('in', 'byte', j) for j in range(8)] + [0] * (64 - 8 * k - 8)
+            ok = bits is not None and (bits + [0] * 64)[:64] == want
+            got = describe(bits[8 * k:8 * k + 8]) if bits else '?'
+        rep.check(r4, ok, 'le-accumulate:byte%d' % k, 'with %d bytes accumulated, the next byte lands at bits %d..%d and nothing else changes: %s (bits there: %s)' % (k, 8 * k, 8 * k + 7, ok, got), '%s:%d' % (le.file, le.line))
+    rbe = ret_expr(be_)
+    ok = False
+    if rbe is not None:
+        def srcb(x):
+            if x == ('param', 3):
+                return ('value', 64)
+            if x == ('entry', ('deref', ('param', 2))):
+                return ('byte', 8)
+            return None
+        bits = BitEval(srcb).bits(rbe)
+        want = [('in', 'byte', j) for j in range(8)] + [('in', 'value', j) for j in range(56)]
+        ok = bits is not None and (bits + [0] * 64)[:64] == want
+    rep.check(r4, ok, 'be-accumulate', 'big-endian step = (value << 8) | byte, bit-exact: %s' % ok, '%s:%d' % (be_.file, be_.line))
+    # counter and state change
+    for f in (le, be_):
+        iw = []
+        for bi, b in enumerate(f.blocks):
+            if b['cleanup']:
+                continue
+            for i_, st in enumerate(b['stmts']):
+                fl = [p['f'] for p in st['lhs']['p'] if isinstance(p, dict) and 'f' in p]
+                if fl == ['i']:
+                    iw.append(peel(f._through(f.rvalue(st['rv'], (bi, i_)), (bi, i_), 0)))
+        okc = len(iw) == 1 and isinstance(iw[0], tuple) and ((iw[0][0] == 'field' and iw[0][1][0] == 'bin' and iw[0][1][1] in ('AddWithOverflow',) and iw[0][1][2] == I_FIELD and const_val(iw[0][1][3]) == 1) or
+                                                            (iw[0][0] == 'bin' and iw[0][1] in ('Add', 'AddUnchecked') and iw[0][2] == I_FIELD and const_val(iw[0][3]) == 1))
+        nx = f.calls(r'next_state_when_i_reaches$')
+        okn = len(nx) == 1 and peel(f.argv(nx[0][0], 1)) == ('param', 4) and peel(f.argv(nx[0][0], 2)) == ('param', 5) and all(nx[0][0] not in f.reachable(0, removed_blocks=[b for b, s_ in [(bi, 1) for bi, b in enumerate(f.blocks) if any([p['f'] for p in st['lhs']['p'] if isinstance(p, dict) and 'f' in p] == ['i'] for st in b['stmts'])]]) for _ in [0])
+        rep.check(r4, okc and okn, f.id.split('::')[-1] + ':counter', 'self.i += 1 (once), then next_state_when_i_reaches(next_state, size): %s / %s' % (okc, okn), '%s:%d' % (f.file, f.line))
+    ns = F.fn(DP + 'next_state_when_i_reaches')
+    g = eq_edges(ns, lambda a, b: peel(a) == I_FIELD and peel(b) == ('param', 3))
+    nsc = ns.calls(r'PacketDissector::<T>::next_state$')
+    rep.check(r4, bool(g) and len(nsc) == 1 and not ns.must_pass(g, [nsc[0][0]]) and peel(ns.argv(nsc[0][0], 1)) == ('param', 2), 'next_state_when_i_reaches', 'next_state(state) exactly when self.i == size: %s' % bool(g), '%s:%d' % (ns.file, ns.line))
+    for nm, inner, size, ty in [('read_ule16', '_read_ulesize', 2, 'u16'), ('read_ule32', '_read_ulesize', 4, 'u32'), ('read_ule64', '_read_ulesize', 8, 'u64'), ('read_u16', '_read_usize', 2, 'u16'), ('read_u32', '_read_usize', 4, 'u32')]:
+        f = F.fn(DP + nm)
+        v = ret_expr(f)
+        ok = isinstance(v, tuple) and v[0] == 'cast' and v[3] == ty and is_call(v[2], inner + '$')
+        if ok:
+            a = v[2][2]
+            ok = a[0] == ('param', 1) and a[1] == ('param', 2) and peel(a[2], casts=True) == ('param', 3) and a[3] == ('param', 4) and const_val(a[4]) == size
+        rep.check(r4, ok, 'wrapper:' + nm, '%s = %s(self, byte, value, next_state, %d) as %s: %s' % (nm, inner, size, ty, ok), '%s:%d' % (f.file, f.line))
+
